@@ -22,13 +22,15 @@ def _mk_subset_problem():
 
     class QuadSubset(SubsetProblem):
         """score = sum a[i] + sum_{i<j} b[i][j] (+ second separable objective a2); cv = max(0, sum g - cap)"""
-        def __init__(self, space, k, a, b, g, cap, a2=None, g2=None, cap2=None, objint=False, unit=1, signed=False):
+        def __init__(self, space, k, a, b, g, cap, a2=None, g2=None, cap2=None, objint=False, unit=1, signed=False, wt=1):
             # objint: the objective vector is returned with an integer dtype (scores are integer counts); unit: violations
             # are reported in units of 1/unit (unit = 2: halves, exact in binary) -- TLC sees the integer loads and caps
             self.objint = bool(objint); self.unit = int(unit)
             # signed: the constraint functions report the signed slack load - cap (negative when satisfied, as pymoo's convention
             # allows), so feasible members of one front carry DIFFERENT constraint values
             self.signed = bool(signed)
+            # wt: the declared objective weight (obj_wt); by the library's contract evalfn returns obj_wt * F(x)
+            self.wt = int(wt)
             self.pos = {int(v): p for p, v in enumerate(space)}
             self.a = np.array(a, float); self.b = np.array(b, float); self.g = np.array(g, float)
             self.cap = cap; self.a2 = None if a2 is None else np.array(a2, float)
@@ -36,7 +38,7 @@ def _mk_subset_problem():
             self.log = None
             super().__init__(ndecn=k, decn_space=np.array(space), decn_space_lower=np.repeat(min(space), k),
                              decn_space_upper=np.repeat(max(space), k), nobj=1 if a2 is None else 2,
-                             nineqcv=0 if cap is None else (1 if cap2 is None else 2))
+                             nineqcv=0 if cap is None else (1 if cap2 is None else 2), **({} if wt == 1 else {"obj_wt": float(wt)}))
 
         def evalfn(self, x, *args, **kwargs):
             x = np.asarray(x)
@@ -44,7 +46,7 @@ def _mk_subset_problem():
                 self.log.append([int(v) for v in x])
             ix = [self.pos[int(v)] for v in x]
             s = self.a[ix].sum() + sum(self.b[ix[p], ix[q]] for p in range(len(ix)) for q in range(p + 1, len(ix)))
-            obj = [s] if self.a2 is None else [s, self.a2[ix].sum()]
+            obj = [self.wt * s] if self.a2 is None else [self.wt * s, self.wt * self.a2[ix].sum()]
             lo_ = -np.inf if self.signed else 0.0
             cv = [] if self.cap is None else [max(lo_, self.g[ix].sum() - self.cap)]
             if self.cap2 is not None:
@@ -275,7 +277,10 @@ def run(ctx):
             space, a, b, g, cap, g2, cap2 = rand_subset_data(rng, n, k, separable, constrained, tight=plateau or (climber and rng.random() < 0.5))
             if plateau and cap2 is None:
                 g2 = [rng.choice([0, 1, 2, 3]) for _ in range(n)]; cap2 = max(0, sum(sorted(g2)[:k]) - rng.choice([0, 1, 2]))
-            prob = QuadSubset(space, k, a, b, g, cap, g2=g2, cap2=cap2, objint=rng.random() < 0.4, unit=rng.choice([1, 1, 2, 4]))
+            # a declared objective weight other than 1 (the problem applies it in evalfn, as the contract says); TLC is given the weighted scores
+            wt = rng.choice([1, 1, 2, 3]); a0, b0 = a, b
+            a = [wt * x for x in a0]; b = [[wt * x for x in r_] for r_ in b0]
+            prob = QuadSubset(space, k, a0, b0, g, cap, g2=g2, cap2=cap2, objint=rng.random() < 0.4, unit=rng.choice([1, 1, 2, 4]), wt=wt)
             before = snapshot(prob)
             seed = rng.randrange(2 ** 31)
             np.random.seed(seed)
@@ -362,8 +367,10 @@ def run(ctx):
             k = rng.randrange(1, n - 1)
             space, a, b, g, cap, g2, cap2 = rand_subset_data(rng, n, k, rng.random() < 0.5, rng.random() < 0.5)
             a2 = [rng.randrange(-4, 5) for _ in range(n)]
-            prob = QuadSubset(space, k, a, b, g, cap, a2=a2, g2=g2, cap2=cap2, objint=rng.random() < 0.4, unit=rng.choice([1, 1, 2, 4]),
-                              signed=rng.random() < 0.5)
+            wt = rng.choice([1, 1, 2, 3]); a0, b0, a20 = a, b, a2
+            a = [wt * x for x in a0]; b = [[wt * x for x in r_] for r_ in b0]; a2 = [wt * x for x in a20]
+            prob = QuadSubset(space, k, a0, b0, g, cap, a2=a20, g2=g2, cap2=cap2, objint=rng.random() < 0.4, unit=rng.choice([1, 1, 2, 4]),
+                              signed=rng.random() < 0.5, wt=wt)
             before = snapshot(prob)
             seed = rng.randrange(2 ** 31)
             np.random.seed(seed)
